@@ -205,8 +205,16 @@ def representation(chk):
             self.generic_visit(node)
             if isinstance(node.func, ast.Attribute) and node.func.attr == "contiguous" and not node.args:
                 return node.func.value
+            # a cast of the zero-point to the dtype of the scale keeps its value (it is what makes the negation safe, see below)
+            if isinstance(node.func, ast.Attribute) and node.func.attr in ("to", "type") and len(node.args) == 1 and U(node.args[0]).endswith(".dtype") and not node.keywords:
+                return node.func.value
             return node
 
+    # the zero-point is an int8 tensor: negating it as such maps -128 to -128 (F33 again); it must be widened before the sign changes
+    negs = [n_ for n_ in ast.walk(sup_args[7]) if isinstance(n_, ast.UnaryOp) and isinstance(n_.op, ast.USub)]
+    widened = all(".to(" in U(n_.operand) or ".float()" in U(n_.operand) or ".type(" in U(n_.operand) for n_ in negs)
+    chk.require("C15.R5", site, bool(negs) and widened, f"optimised constructor: the int8 zero-point is widened before it is negated (`{U(sup_args[7])[:80]}`)", "AWQBitsTensor.__init__", "int8 zero-point negated before widening",
+                "a float16 group spanning [128, 143] (scale 1.0, zero-point -128): the standard tensor dequantizes exactly, the AWQ tensor built from the same codes, scale and zero-point gives -128..-113 (256 x scale away)")
     d_t, s_t, z_t = (_Strip().visit(copy.deepcopy(x)) for x in (sup_args[5], sup_args[6], sup_args[7]))
     shape = "(size[0], size[1] // group_size)"
     want_data = ("AWQPackedTensor.pack(ungroup(data, axis=0, orig_shape=size), packing=AWQPacking.V2)",)
